@@ -521,7 +521,11 @@ class OscScore():
         # needs to undo the check of _get_timetag and _get_logical_time.
         # Those methods and this one would need refactoring all at once.
         if _libsc3.main.current_tt is _libsc3.main.main_tt:
-            tailtime += _libsc3.main.current_tt._seconds
+            # The last event may be later than the last wake-up (latency).
+            last = _libsc3.main.current_tt._seconds
+            if not self._scoreq.empty():
+                last = max(last, self._scoreq.peek(False)[0])
+            tailtime += last
         self.add([tailtime, ['/c_set', 0, 0]])  # Dummy cmd.
         for _, entry in self._scoreq:
             self._lst_score.append(entry.bndl)
